@@ -17,6 +17,9 @@ CHECKS = {
  "C15": ("differential monitor of syntax::parse against a reference conditional evaluator (refpp) over exhaustive directive sequences; ide-level leak monitor on random nestings",
          "Exploration, exhaustive on its small scope: every sequence of <=6 (thorough <=8) items over 11 directive/marker items; token selection compared with refpp on the well-nested ones, an error demanded on the unterminated and nameless ones; plus random depth<=4 nestings analysed by ide with declarations and undefined references hidden in disabled regions.",
          "refpp is trusted; a macro name must be on the directive's line (LLVM semantics); error recognition is by message keywords (endif/EOF, macro name)", "5/C15"),
+ "C16": ("reference-model monitor (graph reachability, link/diagnostic/outline expectations) + hook step budget over exhaustive small include graphs and random larger ones",
+         "Exploration, exhaustive on its small scope: all edge sets incl. self-loops over <=3 files x all roots and all 65536 edge sets over 4 files; random 3-6 file graphs with sub-directories, INCLUDE_DIR search path, shadowed names, missing targets. Termination is decided by the hook step counter, the rest by comparison with a reference reachability model.",
+         "reference resolution order = including file's directory, then INCLUDE_DIR; files are tiny (one class each)", "5/C16"),
 }
 NOT_YET = "check under construction in this session; not claimed yet"
 
